@@ -951,12 +951,44 @@ impl<'a, 'b> GeneratorState<'a> {
                     if self.acc_in_use {
                         self.sasm(PHA)?;
                     }
+                    // An element of an array of shorts or pointers is true when either byte is
+                    let v = self.compiler_state.get_variable(s);
+                    if v.var_type == VariableType::ShortPtr || v.var_type == VariableType::CharPtrPtr {
+                        self.generate_condition_16bits(
+                            &expr,
+                            if negate {
+                                &Operation::Eq
+                            } else {
+                                &Operation::Neq
+                            },
+                            &ExprType::Immediate(0),
+                            pos,
+                            label,
+                        )?;
+                        return Ok(None);
+                    }
                     self.asm(LDA, &expr, pos, false)?;
                     self.flags = FlagsState::AbsoluteX(s.clone());
                 }
                 ExprType::AbsoluteY(s) => {
                     if self.acc_in_use {
                         self.sasm(PHA)?;
+                    }
+                    // An element of an array of shorts or pointers is true when either byte is
+                    let v = self.compiler_state.get_variable(s);
+                    if v.var_type == VariableType::ShortPtr || v.var_type == VariableType::CharPtrPtr {
+                        self.generate_condition_16bits(
+                            &expr,
+                            if negate {
+                                &Operation::Eq
+                            } else {
+                                &Operation::Neq
+                            },
+                            &ExprType::Immediate(0),
+                            pos,
+                            label,
+                        )?;
+                        return Ok(None);
                     }
                     self.asm(LDA, &expr, pos, false)?;
                     self.flags = FlagsState::AbsoluteY(s.clone());
